@@ -338,11 +338,13 @@ class Check(BaseCheck):
             for i in range(16):
                 specs.append({'campaign': 'trees', 'n': 9000, 'seed': seed, 'i': i, 'maxdepth': 6 if i % 4 else 9})
             specs.append({'campaign': 'literals', 'n': 8000, 'seed': seed, 'i': 0})
+            specs.append({'campaign': 'hostbuilt'})
         else:
             for i in range(32):
                 specs.append({'campaign': 'trees', 'n': 110000, 'seed': seed, 'i': i, 'maxdepth': 12 if i % 2 else 6})
             for i in range(4):
                 specs.append({'campaign': 'literals', 'n': 30000, 'seed': seed, 'i': i})
+            specs.append({'campaign': 'hostbuilt'})
         return specs
 
     def run(self, spec, rec):
@@ -410,6 +412,39 @@ class Check(BaseCheck):
             rec.cov('features', x)
         self.cover(rec, t)
         rec.sample({'formula': f, 'expected': repr(m) if not isinstance(m, Fr) else float(m)}, k=8)
+
+    def c_hostbuilt(self, spec, rec):
+        """error objects the host builds itself (its own XLError instance, returned or raised by a custom function, or held by a variable or
+        cell) instead of the library's shared ones.  Which code each predicate attributes to such an object is not claimed; what is claimed
+        are the relations: it IS an error (ISERROR, IFERROR), and ISERROR = ISERR or ISNA on it, in every position."""
+        XL = hx.errors().XLError
+        p = self.e.p
+        for i, c in enumerate(CODES8):
+            p.set_function('OWNV', lambda k: XL(CODES8[int(k)]))
+
+            def ownr(k):
+                raise XL(CODES8[int(k)])
+            p.set_function('OWNR', ownr)
+            p.set_variable('ow_x', XL(c))
+            for wrap in ('%s', '-%s', '%s+1', '1&%s', '%s=1', 'SUM(1,%s)', 'IDF(%s)', 'IFERROR(%s,%s)', '{1,2}+%s', 'MAX(%s,2)', 'IF(TRUE,%s,0)'):
+                for srcx in ('OWNV(%d)' % i, 'OWNR(%d)' % i, 'ow_x'):
+                    x = wrap.replace('%s', srcx)
+                    trio = [self.e.raw('%s(%s)' % (fn, x)) for fn in ('ISERROR', 'ISERR', 'ISNA')]
+                    rec.case()
+                    rec.nt(('hostbuilt', c, x))
+                    if wrap.startswith('{'):
+                        continue        # element-wise: the predicates see an array
+                    if not all(t['error'] is None and isinstance(t['result'], bool) for t in trio):
+                        rec.violation('C08/host-built-error-object:predicate-does-not-answer', formula=x, code=c, iserror=trio[0], iserr=trio[1], isna=trio[2])
+                        continue
+                    if trio[0]['result'] != (trio[1]['result'] or trio[2]['result']):
+                        rec.violation('C08/ISERROR-differs-from-ISERR-or-ISNA:host-built-error-object', formula=x, code=c, iserror=trio[0], iserr=trio[1], isna=trio[2])
+                    if not trio[0]['result']:
+                        rec.violation('C08/host-built-error-object:not-seen-as-an-error', formula=x, code=c, iserror=trio[0])
+                    r = self.e.raw('IFERROR(%s,"trapped")' % x)
+                    if r != {'result': 'trapped', 'error': None}:
+                        rec.violation('C08/host-built-error-object:not-trapped-by-IFERROR', formula=x, code=c, record=r)
+        rec.sample({'formula': 'ISERROR(OWNV(3))=OR(ISERR(OWNV(3)),ISNA(OWNV(3)))'})
 
     def cover(self, rec, t):
         k = t[0]
